@@ -192,12 +192,12 @@ Print Assumptions c14_confined_pinned_refuted.
    secret) and its address is not black-listed.  The right-hand side mentions nothing else:
    session_id or any other parameter, the session table, the sub-session switch [sub] and
    the clock play no part; a fragment request needs no secret (lal's design). *)
-Theorem c14_hls_admission : forall md5raw parse_query lower_uni parse_query_all cfg sub root st now ip path q,
-  reaches_handler (snd (serve_hls md5raw parse_query lower_uni parse_query_all cfg sub root st now ip path q)) <->
+Theorem c14_hls_admission : forall md5raw parse_query lower_uni parse_query_all cfg sub root st now_ms ip path q,
+  reaches_handler (snd (serve_hls md5raw parse_query lower_uni parse_query_all cfg sub root st now_ms ip path q)) <->
   ((beq (snd (filename_and_type (last_item_of_path path))) s_m3u8 = true ->
     sa_hls_m3u8 cfg = false \/
     carries_secret md5raw parse_query lower_uni cfg (ri_stream (get_request_info path root)) q)
-   /\ snd (bl_has (hs_bl st) ip now) = false).
+   /\ snd (bl_has (hs_bl st) ip (now_ms / 1000)%Z) = false).
 Proof. exact hls_admission. Qed.
 Print Assumptions c14_hls_admission.
 
@@ -211,32 +211,62 @@ Theorem c14_secret_first_value : forall md5raw parse_query lower_uni cfg stream 
 Proof. exact carries_secret_first_value. Qed.
 Print Assumptions c14_secret_first_value.
 
-(* serveHls, whole histories: after add_ip_blacklist(ip, dur) at time now, NO request of
-   that address - playlist or fragment, either URL form, any query, simple auth on or
-   off, sub-session feature on or off - is answered with HLS content or given a session,
-   for any history of requests (of any address), black-listings of other addresses and
-   clock advances, until now+dur has passed *)
-Theorem c14_hls_blacklisted_no_content : forall md5raw parse_query lower_uni parse_query_all cfg sub root st ip dur now ops,
-  let st1 := mk_hls_state (bl_add (hs_bl st) ip dur now) (hs_sessions st) (hs_next st) in
+(* serveHls, whole histories (requests of any address, add_ip_blacklist, kick_session, stat,
+   clock advances with the handler's sweeps): after add_ip_blacklist(ip, dur) at time now, NO
+   request of that address - playlist or fragment, either URL form, any query, simple auth
+   and sub-session feature on or off - is answered with HLS content or given a session
+   until now+dur has passed *)
+Theorem c14_hls_blacklisted_no_content : forall md5raw parse_query lower_uni parse_query_all cfg sub root timeout_ms phase st ip dur now_ms ops,
+  let st1 := mk_hls_state (bl_add (hs_bl st) ip dur (now_ms / 1000)%Z) (hs_sessions st) (hs_next st) in
   Forall (sh_op_ok ip) ops -> (sh_total_sleep ops <= dur)%Z ->
-  Forall (fun kr => fst kr = ip -> no_content (snd kr))
-         (sh_run_tagged md5raw parse_query lower_uni parse_query_all cfg sub root st1 now ops)
-  /\ map snd (sh_run_tagged md5raw parse_query lower_uni parse_query_all cfg sub root st1 now ops)
-     = sh_run md5raw parse_query lower_uni parse_query_all cfg sub root st1 now ops.
+  Forall (from_ip ip no_content)
+         (sh_trace md5raw parse_query lower_uni parse_query_all cfg sub root timeout_ms phase st1 now_ms ops)
+  /\ map snd (sh_trace md5raw parse_query lower_uni parse_query_all cfg sub root timeout_ms phase st1 now_ms ops)
+     = sh_run md5raw parse_query lower_uni parse_query_all cfg sub root timeout_ms phase st1 now_ms ops.
 Proof.
-  intros. split; [|apply sh_run_tagged_snd].
-  apply (hls_blacklisted_no_content md5raw parse_query lower_uni parse_query_all cfg sub root ops _ now ip (now + dur)%Z);
+  intros. split; [|apply trace_snd].
+  apply (hls_blacklisted_no_content md5raw parse_query lower_uni parse_query_all cfg sub root timeout_ms phase ops _ now_ms ip (now_ms / 1000 + dur)%Z);
     [apply lookup_add_same|assumption|]. now apply Zplus_le_compat_l.
 Qed.
 Print Assumptions c14_hls_blacklisted_no_content.
 
 (* whatever serveHls serves lies inside the root and got past both gates *)
-Theorem c14_hls_served_confined : forall md5raw parse_query lower_uni parse_query_all cfg sub root st now ip path q st' p,
-  root <> [] -> serve_hls md5raw parse_query lower_uni parse_query_all cfg sub root st now ip path q = (st', HrFile p) ->
+Theorem c14_hls_served_confined : forall md5raw parse_query lower_uni parse_query_all cfg sub root st now_ms ip path q st' p,
+  root <> [] -> serve_hls md5raw parse_query lower_uni parse_query_all cfg sub root st now_ms ip path q = (st', HrFile p) ->
   inside root p /\
-  reaches_handler (snd (serve_hls md5raw parse_query lower_uni parse_query_all cfg sub root st now ip path q)).
+  reaches_handler (snd (serve_hls md5raw parse_query lower_uni parse_query_all cfg sub root st now_ms ip path q)).
 Proof. exact hls_served_confined. Qed.
 Print Assumptions c14_hls_served_confined.
+
+(* a kick of an HLS sub session cannot be undone.  [sid] is any session id handed out so
+   far.  After kick_session(sid), whatever arrives in the window before the handler's next
+   sweep - requests carrying sid included: the handler still answers those (its lookup does
+   not consult the disposed flag; a window of at most one sweep period) but their keep-alive
+   does not clear the flag - once the clock has advanced by one second or more (>= one
+   sweep) sid is registered nowhere, and in every later history no request that carries sid
+   is served a file.  Any timeout, any ticker phase. *)
+Theorem c14_hls_kick_final : forall md5raw parse_query lower_uni parse_query_all cfg root timeout_ms phase sid st now_ms window s later,
+  issued sid st -> (1 <= s)%Z ->
+  let after := sh_exec md5raw parse_query lower_uni parse_query_all cfg true root timeout_ms phase st now_ms
+                       (ShKick sid :: window ++ [ShSleep s]) in
+  absent sid (hs_sessions (fst after)) /\
+  Forall (carrying parse_query_all sid)
+         (sh_trace md5raw parse_query lower_uni parse_query_all cfg true root timeout_ms phase (fst after) (snd after) later).
+Proof. exact hls_kick_final. Qed.
+Print Assumptions c14_hls_kick_final.
+
+(* expiry: a session whose entries are all idle for longer than the timeout (or disposed)
+   when the next sweep runs is removed by it, and no later request carrying its id is served *)
+Theorem c14_hls_expiry_final : forall md5raw parse_query lower_uni parse_query_all cfg root timeout_ms phase sid st now_ms s later,
+  issued sid st -> (1 <= s)%Z ->
+  (forall y, In y (hs_sessions st) -> hx_id y = sid ->
+             hx_disposed y = true \/ (hx_last y + timeout_ms < next_tick phase now_ms)%Z) ->
+  let after := sh_exec md5raw parse_query lower_uni parse_query_all cfg true root timeout_ms phase st now_ms [ShSleep s] in
+  absent sid (hs_sessions (fst after)) /\
+  Forall (carrying parse_query_all sid)
+         (sh_trace md5raw parse_query lower_uni parse_query_all cfg true root timeout_ms phase (fst after) (snd after) later).
+Proof. exact hls_expiry_final. Qed.
+Print Assumptions c14_hls_expiry_final.
 
 (* the six session callbacks of ServerManager: each consults the flag of its own
    protocol and direction, and attaches the session iff the request is authorised *)
